@@ -67,4 +67,17 @@ def calls : List (String × List String) := [
   ("create_new", ["super(DataFrame, cls).create_new", "newentity._h5group.create_dataset"])
 ]
 
+/-- the read path of every DataFrame read (`DataSet.__getitem__` → `_read_data` → `H5DataSet.read_data` →
+    `_convert_string_cols`), statement by statement, as `Pure/FrameBytes.lean` models it: selection from the dataset
+    (h5py's ValueError / TypeError turned into IndexError), then by the kind of the selection — one string, an array
+    of the string type (`sGetField` on a text column: every element through `ensure_str`), a compound selection
+    (`convStringCols` on a single row when `not data.shape`, else row by row: `convStringRows`), converting exactly
+    the fields whose type is the variable-length string type -/
+def storage : List (String × List String) := [
+  ("DataSet.__getitem__", ["def __getitem__(self, index):", "return self._read_data(index)"]),
+  ("DataSet._read_data", ["def _read_data(self, slc=None):", "return self._h5group.get_dataset('data').read_data(slc)"]),
+  ("H5DataSet.read_data", ["def read_data(self, slc=None):", "if slc is None:", "slc = slice(None, None, None)", "try:", "data = self.dataset[slc]", "except ValueError as ve_exc:", "raise IndexError(ve_exc)", "except TypeError as te_exc:", "raise IndexError(te_exc)", "if isinstance(data, (bytes, str)):", "data = np.array(ensure_str(data), dtype=object)", "else:", "if data.dtype == util.vlen_str_dtype:", "data = np.reshape(np.array(list(map(ensure_str, data.ravel())), dtype=object), data.shape)", "else:", "if data.dtype.fields:", "data = self._convert_string_cols(data)", "return data"]),
+  ("H5DataSet._convert_string_cols", ["def _convert_string_cols(data):", "str_cols = list()", "for (field_name, (col_type, _)) in data.dtype.fields.items():", "if col_type == util.vlen_str_dtype:", "str_cols.append(field_name)", "def conv_row(row):", "for field in str_cols:", "row[field] = ensure_str(row[field])", "if str_cols:", "if not data.shape:", "conv_row(data)", "else:", "for row in data:", "conv_row(row)", "return data"])
+]
+
 end Nix.Frame.Shape
